@@ -75,6 +75,14 @@ pub fn run(rep: &mut Report) {
         let now = Utc::now();
         let expected = render(&nodes, &ctx, &now.with_timezone(&Local), &now);
         let budget = scalar_budget(&nodes);
+        if rng.chance(1, 8) {
+            let mut failing = CapW::new();
+            failing.budget = Some(rng.usize_below(20));
+            let mut other = ctx.clone();
+            other.message = "THIS-FAILED-RECORD-MUST-NOT-SHOW-UP".into();
+            let p2 = vec![other.message.clone()];
+            let _ = trap::catch(|| with_record(&other, &p2, |rec| enc.encode(&mut failing, rec)));
+        }
         for chunking in 0..4 {
             let pieces = if chunking == 3 { split_pieces(&ctx.message, rng) } else { vec![ctx.message.clone()] };
             let mut w = if chunking == 0 { CapW::new() } else { CapW::short(rng.next_u64()) };
@@ -119,9 +127,7 @@ pub fn run(rep: &mut Report) {
             rep.sample(json!({"pattern": pattern, "message": ctx.message, "expected": text_of(&expected)}));
         }
     });
-    if rep.tier == "thorough" {
-        // the verdict can flip between profiles (debug_assertions, overflow checks): repeat in release
-        crate::subrun::merge(rep, "L4V_BIN_RELEASE", "C10", "release");
-    }
+    // the verdict can flip between profiles (debug_assertions, overflow checks): repeat in release (both tiers)
+    crate::subrun::merge(rep, "L4V_BIN_RELEASE", "C10", "release");
     rep.require(rep.counter("encodings_compared") > 1000, "fewer than 1000 encodings compared");
 }
